@@ -34,7 +34,7 @@ LEAN_MODULES = ['Pyc.Model.Scene']
 
 KINDS = ['geometry', 'light', 'camera', 'controller']
 LKINDS = ['point', 'spot', 'directional', 'ambient']
-PRIM_SYMS = ['sa', 'sb', 'sc', None]
+PRIM_SYMS = ['sa', 'sb', 'sc', None, 'm0', 'm1']      # a symbol may look like a material id: it is still only bound through the table
 BIND_SYMS = ['sa', 'sa', 'sb', 'sb', 'sc', 'zz', 'yy']
 LIMIT = 1 << 23          # every partial sum of every float32 operation stays below this
 MAX_OBJS = 120           # yields per case over all kinds
@@ -735,12 +735,15 @@ def run_case(case):
     return doc, uidx, oracle(case, doc, uidx)
 
 
-def pair_instances(case, doc):
-    """(leaf of the case, GeometryNode/ControllerNode of the document) pairs, every object once"""
+def pair_instances(case, doc, nodes=None):
+    """(leaf of the case, GeometryNode/ControllerNode of the document) pairs, every object once; `nodes` collects the (case node, Node) pairs"""
     pairs, seen = [], set()
 
     def walk(cn, on):
         if cn[0] == 'n':
+            if nodes is not None and id(on) not in seen:
+                seen.add(id(on))
+                nodes.append((cn, on))
             for c, o in zip(cn[2], list(on.children)):
                 walk(c, o)
         elif cn[0] in ('ig', 'ic') and id(on) not in seen:
@@ -802,10 +805,31 @@ def retraverse(case, doc, uidx, eseed):
     from collada import scene
     r = random.Random('c12re/%s' % eseed)
     c2 = copy.deepcopy(case)
-    pairs = pair_instances(c2, doc)
-    if not pairs:
-        return 'skip'
+    npairs = []
+    pairs = pair_instances(c2, doc, npairs)
     hist = []
+    # new instances below nodes that were traversed before (also below shared nodes, also of a kind the subtree did not hold so far)
+    for cn, on in npairs:
+        if r.random() < 0.3:
+            k = r.choice(['light', 'camera', 'geometry'])
+            if k == 'light' and case['lights']:
+                i = r.randrange(len(case['lights']))
+                cn[2].append(['il', i])
+                on.children.append(scene.LightNode(doc.lights['l%d' % i]))
+            elif k == 'camera' and case['cams']:
+                i = r.randrange(len(case['cams']))
+                cn[2].append(['ik', i])
+                on.children.append(scene.CameraNode(doc.cameras['k%d' % i]))
+            elif k == 'geometry':
+                i = r.randrange(len(case['geoms']))
+                b = gen_binds(r, case['nmat'])
+                cn[2].append(['ig', i, b])
+                on.children.append(scene.GeometryNode(doc.geometries['g%d' % i], [scene.MaterialNode(s_, doc.materials['m%d' % m_], []) for s_, m_ in b]))
+            else:
+                continue
+            hist.append('add-' + k)
+    if not pairs and not hist:
+        return 'skip'
     for cn, on in pairs:
         if r.random() < 0.35:
             continue
